@@ -41,7 +41,8 @@ pub fn gen(rng: &mut Rng) -> Scn {
     let delay = match rng.below(5) {
         0 => Delay::Immediate,
         1 => Delay::Fixed(0),
-        2 | 3 => Delay::Fixed(*rng.pick(&[5u64, 10, 10, 20])),
+        // u64::MAX stands for Duration::MAX ("never hedge" written as a delay)
+        2 | 3 => Delay::Fixed(*rng.pick(&[5u64, 10, 10, 10, 20, 20, u64::MAX])),
         _ => Delay::Table((0..4).map(|_| *rng.pick(&[1u64, 5, 10, 20, 30])).collect()),
     };
     let n = rng.range(1, 3) as usize;
@@ -87,7 +88,7 @@ pub fn valid(s: &Scn) -> bool {
                 && c.attempts.iter().all(|b| b.lat_ms <= 200 && b.yields <= 4 && matches!(b.out, Outcome::Ok | Outcome::Err(0) | Outcome::Err(1)))
         })
         && match &s.delay {
-            Delay::Fixed(d) => *d <= 100,
+            Delay::Fixed(d) => *d <= 100 || *d == u64::MAX,
             Delay::Immediate => true,
             Delay::Table(t) => t.len() >= 4 && t.len() <= 6 && t.iter().all(|d| *d >= 1 && *d <= 100),
         }
@@ -115,7 +116,7 @@ pub fn run(s: &Scn, ctx: &mut RunCtx) -> RunOutput {
         });
         let mut b = HedgeLayer::builder().max_hedged_attempts(scn.max as usize);
         b = match &scn.delay {
-            Delay::Fixed(d) => b.delay(Duration::from_millis(*d)),
+            Delay::Fixed(d) => b.delay(if *d == u64::MAX { Duration::MAX } else { Duration::from_millis(*d) }),
             Delay::Immediate => b.no_delay(),
             Delay::Table(t) => {
                 let t = t.clone();
@@ -174,8 +175,8 @@ pub fn run(s: &Scn, ctx: &mut RunCtx) -> RunOutput {
                     world::violation("C12.spacing", "parallel", format!("call {}: parallel mode but attempt {} started at {}us, primary at {}us", i, j, mine[j].start_us, mine[0].start_us));
                 }
             } else {
-                let d = delay_for(&s.delay, j) * 1000;
-                if mine[j].start_us < mine[j - 1].start_us + d {
+                let d = delay_for(&s.delay, j).saturating_mul(1000);
+                if mine[j].start_us < mine[j - 1].start_us.saturating_add(d) {
                     world::violation("C12.spacing", "too_early", format!("call {}: attempt {} started at {}us, previous at {}us, configured delay {}us", i, j, mine[j].start_us, mine[j - 1].start_us, d));
                 }
             }
@@ -210,7 +211,8 @@ pub fn run(s: &Scn, ctx: &mut RunCtx) -> RunOutput {
                         }
                     }
                     (None, Some("AllAttemptsFailed")) => {
-                        let all_started = mine.len() == max;
+                        // with an infinite delay no further attempt can ever be started
+                        let all_started = mine.len() == max || matches!(s.delay, Delay::Fixed(u64::MAX));
                         let all_failed_by_now = comp.iter().all(|x| !x.1 && x.0 <= t.end_us);
                         if !all_started || !all_failed_by_now {
                             let running: Vec<_> = comp.iter().filter(|x| x.0 > t.end_us).map(|x| (x.0, x.1)).collect();
@@ -240,7 +242,12 @@ pub fn run(s: &Scn, ctx: &mut RunCtx) -> RunOutput {
                 }
             }
             Status::Unresolved => {
-                world::violation("C12.resolves", "never", format!("hedged call {} never resolved ({} attempts started)", i, mine.len()));
+                // an infinite delay means the next attempt can never be started: the call may
+                // wait for ever once everything started has failed
+                let stuck_by_config = matches!(s.delay, Delay::Fixed(u64::MAX)) && comp.iter().all(|x| !x.1);
+                if !stuck_by_config {
+                    world::violation("C12.resolves", "never", format!("hedged call {} never resolved ({} attempts started)", i, mine.len()));
+                }
             }
             Status::Panicked => {
                 world::violation("C12.resolves", "panic", format!("hedged call {} panicked: {:?}", i, t.panic_msg));
